@@ -20,9 +20,10 @@ RULE = ("a generated program is run on device D1; D2 is a copy of D1 with a rand
         "strict returned and >= 1 timing-relevant parameter of a used channel differed")
 ASSUMPTIONS = ["programs contain no deliberately invalid calls; cases tainted by a C09 partial effect are set aside",
                "timeline identity is compared by channel name (ids may change)"]
-TIERS = {"quick": dict(cases=700, shards=8, case_timeout=180, shard_timeout=900),
-         "thorough": dict(cases=11000, shards=16, case_timeout=180, shard_timeout=3000)}
-FLOORS = {"quick": {"strict_switches": 600, "strict_returned": 100, "nonstrict_returned": 200, "register_switches": 300},
+TIERS = {"quick": dict(cases=2100, shards=8, case_timeout=180, shard_timeout=900),
+         "thorough": dict(cases=24000, shards=16, case_timeout=180, shard_timeout=3000)}
+FLOORS = {"quick": {"strict_switches": 1800, "strict_returned": 300, "nonstrict_returned": 600, "register_switches": 900,
+                    "strict_returned_parametrized_builds_compared": 150},
           "thorough": {"strict_switches": 9000}}
 WEIGHTS = {"sample": 0, "str": 0, "to_abstract_repr": 0, "build_copy": 0, "queries": 0, "get_duration": 0,
            "estimate_added_delay": 0, "is_in_eom_mode": 0, "current_phase_ref": 0, "measure": 0.1, "target": 3,
@@ -30,6 +31,47 @@ WEIGHTS = {"sample": 0, "str": 0, "to_abstract_repr": 0, "build_copy": 0, "queri
            "align": 2, "config_slm_mask": 1.0, "set_magnetic_field": 0.05}
 TIMING = ("clock_period", "min_duration", "mod_bandwidth", "custom_phase_jump_time", "min_retarget_interval",
           "fixed_retarget_t", "eom")
+
+
+def perturb_one(rng, dev: dict, used_ids: set) -> tuple[dict, dict]:
+    """Exactly one timing parameter of exactly one channel the sequence uses differs (everything else identical)."""
+    d2 = copy.deepcopy(dev)
+    d2["name"] = "GenDev2"
+    cands = [c for c in d2["channels"] if c.get("id") in used_ids]
+    if not cands:
+        return d2, {}
+    loc = [c for c in cands if c.get("addr") == "Local"]
+    c = gen.pick(rng, loc if loc and rng.random() < 0.5 else cands)
+    local = c.get("addr") == "Local"
+    p = gen.pick(rng, ["clock_period", "min_duration", "mod_bandwidth", "custom_phase_jump_time"]
+                 + (["min_retarget_interval"] * 3 + ["fixed_retarget_t"] if local else [])
+                 + (["eom"] * 3 if c.get("eom") else []))
+    old = copy.deepcopy(c.get(p))
+    if p == "eom":  # only the light-shift side of the EOM configuration (same bandwidth, same buffer time)
+        e = c["eom"]
+        q = gen.pick(rng, ["blue_shift_coeff", "max_limiting_amp", "controlled_beams", "intermediate_detuning"])
+        if q == "blue_shift_coeff":
+            e[q] = gen.pick(rng, [0.5, 1.5, 2.0])
+        elif q == "controlled_beams":
+            e[q] = gen.pick(rng, [["BLUE"], ["RED"], ["BLUE", "RED"]])
+        else:
+            e[q] = e[q] * gen.pick(rng, [0.5, 2.0])
+        return (d2, {c["id"]: {p}}) if c["eom"] != old else (d2, {})
+    if p == "clock_period":
+        c[p] = gen.pick(rng, gen.CLOCKS)
+    elif p == "min_duration":
+        c[p] = gen.pick(rng, gen.MIN_DURS)
+    elif p == "mod_bandwidth":
+        if c.get("eom"):
+            return d2, {}
+        c[p] = gen.pick(rng, [b for b in gen.BWS if b is not None])
+    elif p == "custom_phase_jump_time":
+        c[p] = gen.pick(rng, [0, 13, 100, 40])
+    else:
+        c[p] = gen.pick(rng, [0, 0, 13, 30, 50, 220])
+    if c.get(p) == old:
+        return d2, {}
+    return d2, {c["id"]: {p}}
 
 
 def perturb_device(rng, dev: dict) -> tuple[dict, dict]:
@@ -161,14 +203,93 @@ def check_against_device(ctx, snap, device, tag, case) -> None:
             ctx.violation("nonstrict-too-long", f"{tag}: sequence of {end} ns > max_sequence_duration {ms}", "nonstrict:too-long", case=case)
 
 
+def param_switch(ctx, rng, dev, D2, reg, ops, changed, case) -> None:
+    from vmon import param, prog
+
+    t = param.Templ(rng, p=0.5, custom_var=False)
+    k0 = rng.randint(0, len(ops))  # a literal prefix (already scheduled at switch time), the rest deferred
+    T = []
+    for i, o in enumerate(ops):
+        t.p = 0.0 if i < k0 else 0.5
+        T.append(t.op(o, reg["ids"]))
+    if not param.vars_used(T):
+        return
+    rA = prog.Runner(ctx, dev, reg, [], env=objs.Env("param"))
+    for o in t.decls + T:
+        ev = rA.step(copy.deepcopy(o))
+        if ev.exc is not None:
+            ctx.gray("template-call-refused:" + o["op"])
+            ctx.case = case
+            return
+    ctx.case = case
+    case["template"] = t.decls + T
+    case["values"] = dict(t.values)
+    seqA = rA.seq
+    if not seqA.is_parametrized():
+        return
+    ctx.count("strict_switches_parametrized")
+    for cid, ps in changed.items():
+        if ps == {"min_retarget_interval"}:
+            oc = next((c for c in dev["channels"] if c.get("id") == cid), None)
+            nc = next((c for c in case["device2"]["channels"] if c.get("id") == cid), None)
+            if oc and nc and oc.get("min_retarget_interval", 0) > oc.get("fixed_retarget_t", 0) >= nc.get("min_retarget_interval", 0):
+                ctx.count("parametrized_switch_only_old_channel_bound_by_retarget_interval")
+    try:
+        with warnings.catch_warnings():
+            warnings.simplefilter("ignore")
+            new = seqA.switch_device(D2, True)
+    except Exception:
+        ctx.count("strict_raised_parametrized")
+        return
+    try:
+        with warnings.catch_warnings():
+            warnings.simplefilter("ignore")
+            b1 = seqA.build(**copy.deepcopy(t.values))
+    except Exception:
+        ctx.count("parametrized_original_does_not_build")
+        return
+    try:
+        with warnings.catch_warnings():
+            warnings.simplefilter("ignore")
+            b2 = new.build(**copy.deepcopy(t.values))
+    except Exception:
+        # the deferred calls can only be checked against the new device's limits once their values are known:
+        # raising at build time is the parametrized form of 'it raises'
+        ctx.gray("strict-param-raises-at-build")
+        return
+    ctx.count("strict_returned_parametrized_builds_compared")
+    d = timeline_diff(snapshot(b1), snapshot(b2), tol=1e-6, by_id=True, eom_off=False)
+    if d:
+        slm = snapshot(b1)["flags"]["slm_dmm"]
+        only_slm = slm is not None and all(x.startswith(f"{slm}[") and "pulse samples differ" in x for x in d)
+        mech = "strict-differs:slm-mask-dmm-pulse" if only_slm else \
+            "strict-param-differs:" + "+".join(sorted({p for ps in changed.values() for p in ps if p in TIMING}) or ["other"])
+        if mech == "strict-param-differs:eom" and not any("slots:" in x or "vs (" in x for x in d):
+            # which part of the EOM configuration differs (timeline identical, only samples / off-detuning)
+            for cid, ps in changed.items():
+                oc = next((c for c in dev["channels"] if c.get("id") == cid), None)
+                nc = next((c for c in case["device2"]["channels"] if c.get("id") in (cid, cid + "_x")), None)
+                if ps == {"eom"} and oc and nc and oc.get("eom") and nc.get("eom"):
+                    keys = {k for k in set(oc["eom"]) | set(nc["eom"]) if oc["eom"].get(k) != nc["eom"].get(k)}
+                    if keys == {"controlled_beams"} and len(oc["eom"]["controlled_beams"]) == 1 \
+                            and set(oc["eom"]["controlled_beams"]) < set(nc["eom"]["controlled_beams"]):
+                        mech = "strict-param-differs:eom-controlled-beams-extended"
+        ctx.violation("strict-differs", f"switch_device(strict=True) of a parametrized sequence builds to a different timeline "
+                      f"(changed parameters {sorted((k, sorted(v)) for k, v in changed.items())}): {d[:2]}", mech, case=case)
+
+
 def run_case(ctx, idx, rng, tier):
     dev = gen.gen_device(rng, p_builtin=0.0, p_physical=0.25, xy=rng.random() < 0.1, max_seq=0.1, want_eom=0.6)
-    reg = gen.gen_register(rng, dev, nmin=1, nmax=4, kind="reg")
-    ops, r = concrete_program(ctx, rng, dev, reg, weights=WEIGHTS)
+    reg = gen.gen_register(rng, dev, nmin=1 if rng.random() < 0.3 else 2, nmax=4, kind="reg")
+    ops, r = concrete_program(ctx, rng, dev, reg, weights=WEIGHTS, motifs={"retarget": 0.4, "drift": 0.2})
     if ops is None:
         ctx.count("discarded_after_C09")
         return
-    dev2, changed = perturb_device(rng, dev)
+    if rng.random() < 0.3:
+        dev2, changed = perturb_one(rng, dev, {c["id"] for c in snapshot(r.seq)["chans"].values()})
+        ctx.count("single_parameter_perturbations")
+    else:
+        dev2, changed = perturb_device(rng, dev)
     case = {"device": dev, "device2": dev2, "register": reg, "ops": ops}
     ctx.case = case
     try:
@@ -207,6 +328,12 @@ def run_case(ctx, idx, rng, tier):
         else:
             ctx.count("nonstrict_returned")
             check_against_device(ctx, sn, D2, "switch_device(strict=False)", case)
+    # ---- the same program as a parametrized sequence: nothing is scheduled yet when the devices are compared, so
+    #      'identical timeline' means: for an assignment of the variables both sequences build to the same timeline ----
+    single = len(changed) == 1 and sum(len(v) for v in changed.values()) == 1 and dev2.get("channels") is not None \
+        and [c.get("id") for c in dev2["channels"]] == [c.get("id") for c in dev["channels"]]
+    if idx % 3 == 0 or single:
+        param_switch(ctx, rng, dev, D2, reg, ops, changed, case)
     # ---- switch_register: same ids, atoms moved ---------------------------------------------------
     if not any(c["detmap"] is not None for c in base["chans"].values()) and not base["flags"]["slm_targets"]:
         reg2 = copy.deepcopy(reg)
